@@ -15,6 +15,7 @@
 -/
 import EasyMl.Model.Fallible
 import EasyMl.Model.Matrix
+import EasyMl.Model.MatrixResize
 
 namespace EasyMl.MatrixView
 open EasyMl.Fallible
@@ -340,5 +341,76 @@ def MExpr.eval (A : Arith) : MExpr → Outcome (Except (Shape Bool) MViewU)
         match MView.ofTensor t with
         | .panic k => .panic k
         | .ok v => .ok (.ok ⟨v, src.uget⟩)
+
+/-! ### views that still give access to their source (C12, state after construction)
+
+  `MatrixReverse` is the only public matrix adaptor with post-construction accessors:
+  `source(self)`, `source_ref(&self)`, `source_ref_mut(&mut self)` (src/matrices/views/reverse.rs
+  :74-92; `MatrixView` has the same three, it is a transparent wrapper; `MatrixRange`,
+  `MatrixPart`, `TensorRefMatrix`, `MatrixRefTensor` have none).  Over an owned `Matrix`, a
+  `&mut Matrix` or a `Box<Matrix>` the chain `view.source_ref_mut()…source_ref_mut()` reaches the
+  matrix itself, which can then be written and *resized* (`insert_row`, `remove_column`,
+  `retain_mut`, …: the operations of C11, `Matrix.exec`).
+
+  `Live` mirrors the structs field by field: a `MatrixReverse` is `{ source, rows, columns }` —
+  it keeps **no** copy of its source's size; every accessor reads `source.view_rows()` /
+  `view_columns()` when it is called. -/
+
+inductive Live (α : Type) where
+  /-- the `Matrix<T>` at the bottom -/
+  | matrix (m : Matrix α)
+  /-- `MatrixReverse { source, rows, columns }` -/
+  | reverse (source : Live α) (rows columns : Bool)
+  deriving Repr
+
+namespace Live
+variable {α : Type}
+
+/-- the matrix at the bottom of the chain -/
+def leaf : Live α → Matrix α
+  | .matrix m => m
+  | .reverse s _ _ => s.leaf
+
+/-- `source_ref_mut()` down to the matrix, then one operation on it: the object left behind
+    (also after a panic) and the panic -/
+def mutate : Live α → Matrix.Op α → Live α × Option PanicKind
+  | .matrix m, op => (.matrix (m.exec op).state, (m.exec op).panic)
+  | .reverse s fr fc, op => (.reverse (s.mutate op).1 fr fc, (s.mutate op).2)
+
+/-- a history of such operations -/
+def mutateAll : Live α → List (Matrix.Op α) → Live α
+  | l, [] => l
+  | l, op :: ops => mutateAll (l.mutate op).1 ops
+
+/-- what the model keeps of the current matrix for the getters -/
+def metaOf (m : Matrix α) : MatrixMeta := ⟨m.data.length, m.rows, m.columns⟩
+
+/-- the `MatrixRef` / `MatrixMut` implementation of the object *as it is now*: `view_rows`,
+    `view_columns`, checked and unchecked getters (answers are offsets into the current data of
+    the matrix at the bottom) -/
+def view (A : Arith) : Live α → MViewU
+  | .matrix m => ⟨MView.ofMatrix (metaOf m), (metaOf m).uget⟩
+  | .reverse s fr fc =>
+    let v := s.view A
+    ⟨v.view.reverse A fr fc, reverseUget v.uget v.view.rows v.view.columns fr fc⟩
+
+/-- `source_ref()` (`k` times): the inner object, read-only -/
+def sourceRef : Live α → Nat → Option (Live α)
+  | l, 0 => some l
+  | .matrix _, _ + 1 => none
+  | .reverse s _ _, k + 1 => s.sourceRef k
+
+/-- `source(self)`: unwrap one adaptor -/
+def unwrap : Live α → Option (Live α)
+  | .matrix _ => none
+  | .reverse s _ _ => some s
+
+/-- the specification-level description of the object as it is now: reversals over a leaf of
+    the matrix's *current* size -/
+def expr : Live α → MExpr
+  | .matrix m => .leaf m.rows m.columns
+  | .reverse s fr fc => .reverse s.expr fr fc
+
+end Live
 
 end EasyMl.MatrixView
